@@ -33,6 +33,17 @@ class _Obj:
         self.__dict__.update(k)
 
 
+def _replay_seg(model):
+    """replay z3's own counter-model on the real function (falls back to a fixed parallel pair)"""
+    from fractions import Fraction
+    try:
+        v = [float(Fraction(model[k])) for k in ("a0x", "a0y", "a1x", "a1y", "b0x", "b0y", "b1x", "b1y")]
+        pts = "(%r, %r), (%r, %r), (%r, %r), (%r, %r)" % tuple(v)
+    except Exception:
+        pts = "(0.0, 0.0), (1.0, 0.0), (0.5, 1.0), (1.5, 1.0)"
+    return _REPLAY_SEG.replace("(0.0, 0.0), (1.0, 0.0), (0.5, 1.0), (1.5, 1.0)", pts)
+
+
 _REPLAY_SEG = """
 import numpy as np
 from hiten.algorithms.connections.backends import _closest_points_on_segments_2d as f
@@ -41,7 +52,7 @@ s, t, px, py, qx, qy = f(*a0, *a1, *b0, *b1)
 d = np.hypot(px-qx, py-qy)
 best = min(np.hypot(a0[0]+u*(a1[0]-a0[0]) - (b0[0]+v*(b1[0]-b0[0])), a0[1]+u*(a1[1]-a0[1]) - (b0[1]+v*(b1[1]-b0[1])))
            for u in np.linspace(0, 1, 201) for v in np.linspace(0, 1, 201))
-print('parallel segments a=(0,0)-(1,0), b=(.5,1)-(1.5,1): returned distance', d, ' true minimum', best)
+print('segments a=%s-%s, b=%s-%s: returned distance' % (a0, a1, b0, b1), d, ' true minimum (grid search)', best)
 print('CONFIRMED' if d > best + 1e-9 else 'NOT-CONFIRMED')
 """
 
@@ -78,7 +89,7 @@ def _segments(chk):
     for nm in ("closest points: 0 <= s,t <= 1; p == a0 + s u; q == b0 + t v",
                "closest points: (s,t) is a global minimiser (KKT sign conditions on the unit box)"):
         chk.obl(nm, "K2 path VC (NRA)", [fn_label], "B1 z3 NRA (B2 cvc5 on unknown)",
-                lambda nm=nm: explore().verdict(nm, replay=_REPLAY_SEG if "minimiser" in nm else None),
+                lambda nm=nm: explore().verdict(nm, replay=_replay_seg if "minimiser" in nm else None),
                 sample="8 symbolic reals; one VC per path; quotients are fresh variables with q*den == num")
 
     def canary():
